@@ -70,15 +70,7 @@ func (op *LogOp) ApplyTo(cstate consensus.State) (consensus.State, error) {
 			goto ROLLBACK
 		}
 		// Async, we let the PinTracker take care of any problems
-		op.consensus.rpcClient.GoContext(
-			ctx,
-			"",
-			"PinTracker",
-			"Track",
-			pin,
-			&struct{}{},
-			nil,
-		)
+		op.notifyTracker(ctx, "Track", pin)
 	case LogOpUnpin:
 		err = state.Rm(ctx, pin.Cid)
 		if err != nil {
@@ -86,15 +78,7 @@ func (op *LogOp) ApplyTo(cstate consensus.State) (consensus.State, error) {
 			goto ROLLBACK
 		}
 		// Async, we let the PinTracker take care of any problems
-		op.consensus.rpcClient.GoContext(
-			ctx,
-			"",
-			"PinTracker",
-			"Untrack",
-			pin,
-			&struct{}{},
-			nil,
-		)
+		op.notifyTracker(ctx, "Untrack", pin)
 	default:
 		logger.Error("unknown LogOp type. Ignoring")
 	}
@@ -107,4 +91,25 @@ ROLLBACK:
 	// by the cluster leader.
 	logger.Error("Rollbacks are not implemented")
 	return nil, errors.New("a rollback may be necessary. Reason: " + err.Error())
+}
+
+// notifyTracker tells the local PinTracker about an applied operation. Raft
+// starts applying log entries as soon as the component is created, which is
+// before the Cluster hands it an RPC client (SetClient): until then there is
+// nobody to notify and the tracker catches up on its next state sync.
+func (op *LogOp) notifyTracker(ctx context.Context, method string, pin *api.Pin) {
+	client := op.consensus.rpcClient
+	if client == nil {
+		logger.Debugf("no RPC client yet: PinTracker.%s not called for %s", method, pin.Cid)
+		return
+	}
+	client.GoContext(
+		ctx,
+		"",
+		"PinTracker",
+		method,
+		pin,
+		&struct{}{},
+		nil,
+	)
 }
